@@ -29,6 +29,9 @@ def main(argv=None) -> int:
         return 2
     try:
         mod.run(ctx)
+        if a.tier == "thorough" and not a.replay:
+            from . import battery
+            battery.run_battery(ctx, mod.analyse)
     except AnalysisError as e:
         ctx.error(str(e))
     except Exception:
